@@ -634,4 +634,65 @@ example : ¬ ∃ C, ∀ s : ℝ, 0 < s → Real.log (gammaPDFReal (3 / 2) 2 s)
     - (((1 : ℝ) / 2) * Real.log (s ^ 2) - s ^ 2 * 2 / 2 + logKernel (1 - 1) 1 s) = C :=
   square_dependence_never_proportional _ _ 1 2 1 1 (by norm_num) (by norm_num) (by norm_num)
 
+/-! ## 7. One Direct sampler, several targets: histories -/
+
+/-- invariant of a history: every stored state is a draw its target has already served, and no
+    (target, draw) pair is stored twice -/
+def MChain.Fresh (st : MChain) : Prop :=
+  (∀ p ∈ st.samples, p.2 < st.pos p.1) ∧ st.samples.Nodup
+
+lemma bump_le (pos : ℕ → ℕ) (t u : ℕ) : pos u ≤ bump pos t u := by
+  unfold bump; split_ifs <;> omega
+
+lemma mStep_fresh (st : MChain) (op : DOp) (h : st.Fresh) : (mStep st op).Fresh := by
+  obtain ⟨hb, hn⟩ := h
+  cases op with
+  | assign t => exact ⟨fun p hp => lt_of_lt_of_le (hb p hp) (bump_le _ _ _), hn⟩
+  | reinit => exact ⟨fun p hp => by simp [mStep] at hp, by simp [mStep]⟩
+  | step =>
+    refine ⟨fun p hp => ?_, ?_⟩
+    · simp only [mStep, List.mem_append, List.mem_singleton] at hp
+      rcases hp with hp | rfl
+      · exact lt_of_lt_of_le (hb p hp) (bump_le _ _ _)
+      · simp [mStep, bump]
+    · simp only [mStep]
+      rw [List.nodup_append]
+      refine ⟨hn, by simp, fun a ha b hb' => ?_⟩
+      simp only [List.mem_singleton] at hb'
+      subst hb'
+      intro hab
+      have := hb a ha
+      rw [hab] at this
+      exact lt_irrefl _ this
+
+/-- **No draw of any target is ever stored twice, across re-assignments, steps and
+    re-initialisations** (every history of operations, by induction on the history). -/
+theorem mRun_fresh (ops : List DOp) (st : MChain) (h : st.Fresh) : (mRun st ops).Fresh := by
+  induction ops generalizing st with
+  | nil => exact h
+  | cons op ops ih => exact ih _ (mStep_fresh st op h)
+
+example : (mRun (mInit 0) [.step, .assign 1, .step, .reinit, .step, .assign 0, .step]).Fresh :=
+  mRun_fresh _ _ ⟨fun p hp => by simp [mInit] at hp, by simp [mInit]⟩
+
+/-- **A step after an assignment draws from the newly assigned target** — whatever happened
+    before (`ops` arbitrary): the state stored is the first draw of `t` after its validation draw. -/
+theorem mRun_step_after_assign (st : MChain) (ops : List DOp) (t : ℕ) :
+    (mRun st (ops ++ [.assign t, .step])).samples
+      = (mRun st ops).samples ++ [(t, (mRun st ops).pos t + 1)] ∧
+    (mRun st (ops ++ [.assign t, .step])).cur = t := by
+  unfold mRun
+  rw [List.foldl_append]
+  simp [mStep, bump]
+
+example : (mRun (mInit 0) ([.step, .step] ++ [.assign 7, .step])).samples.getLast? = some (7, 1) := by
+  rw [(mRun_step_after_assign _ _ _).1]; simp [mRun, mInit, mStep, bump]
+
+/-- every step stores a draw of the *current* target and nothing else changes the stored chain
+    except `reinitialize` (which empties it) -/
+theorem mStep_samples (st : MChain) :
+    (mStep st .step).samples = st.samples ++ [(st.cur, st.pos st.cur)] ∧
+    (∀ t, (mStep st (.assign t)).samples = st.samples) ∧ (mStep st .reinit).samples = [] :=
+  ⟨rfl, fun _ => rfl, rfl⟩
+
 end CuqiVerif.C10
